@@ -71,11 +71,42 @@ class PROP(E2E):
                     pre.append(cligen.call_op(big, typed=(big[0] != "CU" and rng.random() < 0.5)))
                 yield dict(proto=proto, slave=rng.randrange(256), req=req, reply=("none",), pre=pre, pre_clean=True)
 
+    def cases(self, rng, tier):
+        cs = super().cases(rng, tier)
+        # one client polling several devices: successful calls with set_slave between them (the most ordinary gateway use) -- every
+        # request goes out under the id selected at that moment
+        poll = []
+        for _ in range(150 if tier == "quick" else 1500):
+            proto = rng.choice(["tcp", "rtu"])
+            slave = slave0 = rng.randrange(256)
+            ops, want = [], []
+            for i in range(rng.randrange(2, 6)):
+                if rng.random() < 0.6:
+                    slave = rng.choice([rng.randrange(256), slave0, 0, 255])
+                    ops.append("slave %d" % slave)
+                req = mb.rnd_req(rng, rng.choice(["RHR", "RC", "WSR", "WSC", "RIR", "MWR"]))
+                rsp = mb.matching_rsp(rng, req)
+                if mb.spec_rsp_size(rsp) > 253:
+                    req, rsp = ("RHR", 1, 1), ("RHR", [7])
+                ops.append(cligen.call_op(req, R="d" + cligen.frame(proto, i, slave, mb.spec_rsp_pdu(rsp)).hex(), typed=rng.random() < 0.4))
+                want.append(cligen.frame(proto, i, slave, mb.spec_req_pdu(req)).hex())
+            poll.append(Case(cligen.cli_line(proto, slave0, ops), {"stage": "poll", "want": want, "proto": proto}))
+        step = max(1, len(cs) // (len(poll) + 1))
+        for i, d in enumerate(poll):
+            cs.insert(min(len(cs), (i + 1) * step + i), d)
+        return cs
+
     def oracle(self, c):
         m = c.meta
         st = m.get("stage", 0)
         if "PANIC" in (c.impl or ""):
             return "panic"
+        if st == "poll":
+            ws = [cligen.res_and_w(x)[1].hex() for x in cligen.split_results(c.impl) if x != "ok"]
+            for i, (got, want) in enumerate(zip(ws + [""] * len(m["want"]), m["want"])):
+                if got != want:
+                    return "polling several devices over one client: request %d went out as %s, the frame for the id selected at that moment is %s" % (i + 1, got[:60], want[:60])
+            return None
         if st == "own":
             t = c.line.split(" ")
             want = "%s %s:%s" % (t[2], t[1], t[2])
